@@ -9,6 +9,7 @@
   trimming of the line terminator change.
 -/
 import Proofs.GoTieMisc
+import Proofs.GoTieFormat
 namespace AgeModel
 namespace Tie.C07
 
@@ -22,6 +23,43 @@ theorem splitArgs_tie (l : Bytes) :
            | h :: t => (h, t)
            | [] => ([], [])) :=
   GoTie.splitArgs_tie l
+
+
+/-! ## The header parser itself (DESIGN.md §5.3)
+
+`format.Parse`, `(*StanzaReader).ReadStanza` and `NewStanzaReader` are TRANSLATED from
+internal/format/format.go on every run — the intro line, the `Peek`/`ReadStanza` loop,
+the sticky error with its `defer`, the body-line loop, the closing line with the MAC —
+with `format.DecodeString` kept abstract and assumed to be the model's `decodeString`
+(`GoTie.DecodeIsModel`; the strict base64 of the model is tied to Go's by this property's
+correspondence). For EVERY input the translated parser returns what the model's
+`Format.parse` returns: the same header (stanzas in order, MAC) and the same unread
+remainder, or an error. `marshal_of_parse`, `parse_of_marshal`, `no_two_spellings`,
+`parse_consumes_exactly` (Props/C07) are thereby theorems about the parser as it stands in
+the source. (Translated up to the point where the Go code hands back the unread input;
+the tail that unwinds bufio's read-ahead is outside the fragment, see Proofs/GoTieFormat.) -/
+
+theorem parse_tie (D : Bytes → Go.M (Bytes × Option Go.Err)) (eD : Go.Err) (hD : GoTie.DecodeIsModel D eD)
+    (input : Bytes) :
+    ∃ res, Extracted.format_Parse D input = .ok res ∧
+      match Format.parse input with
+      | .ok (h, rest) => res = (GoTie.toGoHeader h, rest, none)
+      | .error _ => res.2.2 ≠ none :=
+  GoTie.parse_tie D eD hD input
+
+theorem readStanza_tie (D : Bytes → Go.M (Bytes × Option Go.Err)) (eD : Go.Err) (hD : GoTie.DecodeIsModel D eD)
+    (input : Bytes) :
+    ∃ res, Extracted.format_StanzaReader_ReadStanza D ⟨input, none⟩ = .ok res ∧
+      match Format.readStanza input with
+      | .ok (st, rest) => res = (GoTie.toGoFStanza st, none, ⟨rest, none⟩)
+      | .error _ => res.2.1 ≠ none ∧ res.2.2.err = res.2.1 :=
+  GoTie.readStanza_tie D eD hD input
+
+/-- read errors are unrecoverable -/
+theorem readStanza_sticky (D : Bytes → Go.M (Bytes × Option Go.Err)) (rd : Bytes) (e : Go.Err) :
+    Extracted.format_StanzaReader_ReadStanza D ⟨rd, some e⟩ =
+      .ok (({ Type_ := [], Args := [], Body := [] } : Extracted.format_Stanza), some e, ⟨rd, some e⟩) :=
+  GoTie.readStanza_sticky D rd e
 
 end Tie.C07
 end AgeModel
